@@ -1,6 +1,8 @@
 """C01 — scheduling rewrites preserve procedure semantics (DESIGN.md section 3, C01)."""
 from __future__ import annotations
 
+import json
+
 from common import InfraError
 import sched_run
 
@@ -55,8 +57,19 @@ def run(ctx):
                 pass  # reported by C07
             elif x["kind"] == "observer-exception":
                 ctx.violation(f"observer-exception:{x['att']['op']}", x["exc"], x, no_input=True)
+    # a shape mismatch of an attempt whose execution also differs is the same event as that mismatch
+    # (the real output is not the modelled rewrite BECAUSE of the defect the failing input shows)
+    sem_key = {}
+    for r in recs:
+        for x in r.get("records", []):
+            if x["kind"] == "mismatch":
+                sem_key[(x["program"], json.dumps(x["att"], sort_keys=True), json.dumps(x["hist"], sort_keys=True))] = x["key"]
     for x in shape:
         # the real output is not the rewrite the theorems talk about: correspondence A broke
+        k = sem_key.get((x["program"], json.dumps(x["att"], sort_keys=True), json.dumps(x["hist"], sort_keys=True)))
+        if k is not None:
+            ctx.violation(k, x["what"] + " (model/real correspondence; same attempt as the failing execution)", x)
+            continue
         ctx.violation(x["key"], x["what"] + " (model/real correspondence)", x,
                       no_input=x["att"]["op"] not in concrete_ops)
     ctx.evaluations = ctx.counts.get("pairs-executed", 0)
